@@ -295,11 +295,11 @@ func (g *goGen) valueExpr(prefix string, t types.Type, depth int) string {
 		}
 		return name
 	case *types.Interface:
-		tag, _ := modelUint(g.m, prefix+"#0")
-		if tag == 0 {
+		tag, ok := modelUint(g.m, prefix+"#0")
+		if ok && tag == 0 {
 			return "nil"
 		}
-		g.fail = "interface-typed input"
+		g.fail = "interface-typed input (dynamic type and contents cannot be rebuilt from the model)"
 		return "nil"
 	}
 	g.fail = "unsupported parameter type " + t.String()
@@ -334,6 +334,59 @@ func (w *World) replay(r *FnResult, o *Obligation) *ReplayResult {
 	if small := w.smallModel(r, o); small != nil {
 		model = small
 	}
+	if len(model) == 0 {
+		rr.Note = "the solver that refuted the obligation produced no model (cvc5 is run without model production) and z3 did not find one in time"
+		return rr
+	}
+	return w.replayModel(r, o, fn, model, rr, true)
+}
+
+// baseOblName strips the occurrence suffix of an obligation name.
+func baseOblName(n string) string {
+	if i := strings.LastIndex(n, "#"); i > 0 {
+		if _, err := strconv.Atoi(n[i+1:]); err == nil {
+			return n[:i]
+		}
+	}
+	return n
+}
+
+// bmcModel searches for a counterexample of the same obligation that starts
+// at the function entry, by unrolling every loop k times instead of cutting it.
+func (w *World) bmcModel(r *FnResult, o *Obligation) (*FnResult, *Obligation) {
+	fc := w.contracts[r.Key]
+	if fc == nil {
+		return nil, nil
+	}
+	want := baseOblName(o.Name)
+	for _, k := range []int{1, 2, 4} {
+		br := w.verifyFunctionMode(fc, nil, "", k)
+		if br.Err != "" {
+			return nil, nil
+		}
+		var cands []*Obligation
+		for _, bo := range br.Obls {
+			if baseOblName(bo.Name) == want && bo.Status == "" {
+				cands = append(cands, bo)
+			}
+		}
+		if len(cands) == 0 {
+			continue
+		}
+		keep := br.Obls
+		br.Obls = cands
+		discharge([]*FnResult{br}, 8, 5*time.Second, 20*time.Second)
+		br.Obls = keep
+		for _, bo := range cands {
+			if bo.Status == "sat" && len(bo.Model) > 0 {
+				return br, bo
+			}
+		}
+	}
+	return nil, nil
+}
+
+func (w *World) replayModel(r *FnResult, o *Obligation, fn *ssa.Function, model map[string]string, rr *ReplayResult, tryBMC bool) *ReplayResult {
 	g := &goGen{m: model, pkg: fn.Pkg.Pkg, imports: map[string]string{"fmt": "fmt", "testing": "testing"}}
 	var argExprs []string
 	for i, p := range fn.Params {
@@ -400,10 +453,24 @@ func (w *World) replay(r *FnResult, o *Obligation) *ReplayResult {
 	out, _ := runReplayTest(pdir, rr.Test)
 	rr.Cmd = "cd " + pdir + " && go test -overlay <generated> -vet=off -tags verif -count=1 -v -timeout 60s -run ^TestGovcReplay$ ."
 	rr.Output = truncate(string(out), 3000)
-	if strings.Contains(string(out), "GOVC-REPLAY panic:") {
+	if strings.Contains(string(out), "GOVC-REPLAY panic:") && panicMatches(o.Kind, string(out)) {
 		rr.Confirmed = true
+	} else if strings.Contains(string(out), "GOVC-REPLAY panic:") {
+		rr.Note = "the real function panicked, but not with the kind of run-time error this obligation guards against"
 	} else if strings.Contains(string(out), "GOVC-REPLAY returned") {
 		rr.Note = "the real function returned normally on the model's inputs (modular counterexample not reproduced)"
+		if tryBMC {
+			// the model may start inside a cut loop: look for one from the entry
+			if br, bo := w.bmcModel(r, o); bo != nil {
+				m := bo.Model
+				if small := w.smallModel(br, bo); small != nil {
+					m = small
+				}
+				rr2 := w.replayModel(br, bo, fn, m, &ReplayResult{}, false)
+				rr2.Note = strings.TrimSpace("counterexample from the function entry found by unrolling the loops (bounded search); " + rr2.Note)
+				return rr2
+			}
+		}
 	} else {
 		rr.Note = "replay test did not run to completion"
 	}
@@ -441,7 +508,7 @@ func (w *World) smallModel(r *FnResult, o *Obligation) map[string]string {
 		}
 	}
 	q := BuildQuery(as, o.Cond, gv)
-	res := solveQuery(q, 5*time.Second, 20*time.Second)
+	res := solveModel(q, 25*time.Second)
 	if res.status != "sat" {
 		return nil
 	}
@@ -466,4 +533,23 @@ func runReplayTest(pdir, src string) (string, bool) {
 	cmd.Env = append(os.Environ(), "GOFLAGS=-mod=mod", "GOPROXY=off")
 	out, _ := cmd.CombinedOutput()
 	return string(out), strings.Contains(string(out), "GOVC-REPLAY panic:")
+}
+
+// panicMatches: the observed run-time error is the one the obligation predicts.
+func panicMatches(kind, out string) bool {
+	switch kind {
+	case "index":
+		return strings.Contains(out, "index out of range")
+	case "slice":
+		return strings.Contains(out, "slice bounds out of range")
+	case "nil":
+		return strings.Contains(out, "nil pointer dereference") || strings.Contains(out, "invalid memory address")
+	case "div":
+		return strings.Contains(out, "divide by zero")
+	case "make":
+		return strings.Contains(out, "makeslice") || strings.Contains(out, "out of range")
+	case "typeassert":
+		return strings.Contains(out, "interface conversion")
+	}
+	return true
 }
